@@ -38,14 +38,24 @@ type statCall struct {
 type recStatter struct {
 	mu    sync.Mutex
 	calls []statCall
+	// failEvery > 0: every failEvery-th call is recorded and then reports an
+	// error (a client whose error does not mean that nothing was sent)
+	failEvery int
+	n         int
 }
 
 func (s *recStatter) add(m, n string, i int64, d time.Duration, rate float32, tags []cstatsd.Tag) error {
 	s.mu.Lock()
+	defer s.mu.Unlock()
 	s.calls = append(s.calls, statCall{m, n, i, d, rate, len(tags)})
-	s.mu.Unlock()
+	s.n++
+	if s.failEvery > 0 && s.n%s.failEvery == 0 {
+		return errStatter
+	}
 	return nil
 }
+
+var errStatter = fmt.Errorf("statter: send failed")
 func (s *recStatter) Inc(n string, v int64, r float32, t ...cstatsd.Tag) error {
 	return s.add("Inc", n, v, 0, r, t)
 }
@@ -117,11 +127,14 @@ func c18Case(c *mon.Ctx, r *mon.Rand) {
 		effRate = 1
 	}
 	st := &recStatter{}
+	if r.Chance(1, 3) {
+		st.failEvery = r.Range(1, 4)
+	}
 	rep := tstatsd.NewReporter(st, tstatsd.Options{SampleRate: rate, HistogramBucketNamePrecision: prec})
 	pool := newStrPool(r, true, true, true)
 	var ops []string
 	desc := func() interface{} {
-		return map[string]interface{}{"precision": prec, "rate": rate, "ops": ops}
+		return map[string]interface{}{"precision": prec, "rate": rate, "client_reports_an_error_every": st.failEvery, "ops": ops}
 	}
 	c.Eval(1)
 	c.Distinct(mon.Hash64(fmt.Sprint(prec, rate, r.U64())))
